@@ -56,9 +56,9 @@ Is(name) == l <= N /\ Ev[l].ev = name /\ l' = l + 1
 Silent == l' = l /\ UNCHANGED aux
 E == Ev[l]
 
-TInit == Init /\ l = 1 /\ aux = [created |-> {}, keeps |-> <<>>, prev |-> "", renamed |-> {}, coin |-> "bitcoin"]
+TInit == Init /\ l = 1 /\ aux = [created |-> {}, keeps |-> <<>>, prev |-> "", renamed |-> {}, coin |-> "bitcoin", ino |-> 0]
 
-AuxInit == [created |-> {}, keeps |-> <<>>, prev |-> "", renamed |-> {}, coin |-> "bitcoin"]
+AuxInit == [created |-> {}, keeps |-> <<>>, prev |-> "", renamed |-> {}, coin |-> "bitcoin", ino |-> 0]
 TBegin == Is("cmd") /\ BeginFresh(TraceScenario(l)) /\ aux' = [AuxInit EXCEPT !.coin = IF Has(E, "coin") THEN E.coin ELSE "bitcoin"]
 
 \* ---- construction of the callback ------------------------------------------------------------
@@ -135,9 +135,12 @@ TRename == /\ Is("rename") /\ pc = "finish"
                 \* the logged buffer state is authoritative: every writer observed empty has been flushed
                 /\ tmp' = [g \in DOMAIN tmp |-> IF g = f THEN [disk |-> rows[f], buf |-> 0] ELSE tmp[g]]
                 /\ fin' = [n \in DOMAIN fin \cup {FinalName(f)} |-> IF n = FinalName(f) THEN f ELSE fin[n]]
-           /\ UNCHANGED aux
+           /\ aux' = [aux EXCEPT !.ino = IF Has(E, "ino") THEN E.ino ELSE 0]
            /\ UNCHANGED <<sc, pc, scan, seen, lastAt, idx, fileMaxH, maxH, cur, open, blk, delivered, rows, exit, errH>>
+\* RenameFile makes the final name designate THE tmp file (same inode): the final name never holds anything but the complete file.
+\* A copy followed by a removal would create the final name empty and fill it afterwards.
 TRenamed == /\ Is("renamed") /\ pc = "finish" /\ FileOfTmp(E.file) \in Renamed
+            /\ (Has(E, "ino") /\ aux.ino # 0) => E.ino = aux.ino
             /\ aux' = [aux EXCEPT !.renamed = @ \cup {FileOfTmp(E.file)}] /\ UNCHANGED vars
 TCompleted == /\ Is("completed") /\ UNCHANGED aux
               /\ IF sc.cb \in FileCallbacks THEN aux.renamed = DOMAIN tmp /\ FinishDone
